@@ -281,7 +281,7 @@ def check_case(case) -> list[Violation]:
 
 # ---- generation ---------------------------------------------------------------------------------
 
-METHOD_LINE_SET = ["Mark: a", "Pause", "Pause: 0.3s", "Pause: 0.25s", "Hold", "Hold: 0.3s", "Hold: 0.15s", "Stop", "Restart",
+METHOD_LINE_SET = ["Mark: a", "Pause", "Pause: 0.3s", "Pause: 0.25s", "Hold", "Hold: 0.3s", "Hold: 0.15s", "Stop", "Restart", "Unpause", "Unhold",
                                 "Wait: 0.3s", "Mark: b", "Quick: q"]
 METHOD_LINES = st.sampled_from(METHOD_LINE_SET)
 
